@@ -6754,6 +6754,7 @@ def compile(func, /, *, stats: typing.Optional[str] = None, cache_const_intermed
     globals = dict(
         collections=collections,
         first_run=True,
+        freeze_views=_freeze_views,
         log_stats=_log_stats,
         multiprocessing=multiprocessing,
         evaluable=evaluable,
@@ -6872,6 +6873,11 @@ def compile(func, /, *, stats: typing.Optional[str] = None, cache_const_intermed
         # Make all cached results immutable.
         for v in cache_vars:
             main.append(_pyast.Exec(v.get_attr('setflags').call(write=_pyast.LiteralBool(False))))
+        # Results of the first run that are views of cached data were created
+        # while that data was still writable; make those immutable as well, as
+        # they would have been in any subsequent run.
+        if cache_vars:
+            main.append(_pyast.Exec(_pyast.Variable('freeze_views').call(_pyast.Tuple(tuple(py_funcs)), _pyast.Tuple(cache_vars))))
         # Combine `main` (for the first run) and `main_rerun` into `main`.
         main.append(_pyast.Assign(first_run, _pyast.LiteralBool(False)))
         main = _pyast.Block([
@@ -6952,6 +6958,12 @@ def _define_loop_block_structure(targets: typing.Tuple[Evaluable, ...]) -> typin
     id_map = util.IDDict()
     build_id_map(groups, ())
     return tuple(util.shallow_replace(id_map.get, target) for target in unique_targets)
+
+
+def _freeze_views(arrays, cached):
+    for array in arrays:
+        if array.flags.writeable and any(numpy.may_share_memory(array, c) for c in cached):
+            array.setflags(write=False)
 
 
 def _log_stats(func, stats):
